@@ -2,9 +2,10 @@
 # tools/seedrun.sh <patch.diff> Cxx [check args]
 # Runs ./check Cxx against a PRIVATE copy of /verif and a PRIVATE worktree of /repo with the patch applied,
 # so that neither /repo nor /verif is disturbed and no lock is needed (for mutation experiments while other
-# checks are running). Private area: /root/seedrun (removed with `tools/seedrun.sh --clean`).
+# checks are running). Private area: $SEEDRUN_BASE, default /root/seedrun (removed with `tools/seedrun.sh --clean`);
+# several instances with different SEEDRUN_BASE may run in parallel.
 set -u
-BASE=/root/seedrun
+BASE=${SEEDRUN_BASE:-/root/seedrun}
 if [ "$1" = "--clean" ]; then
   git -C /repo worktree remove --force $BASE/repo 2>/dev/null
   rm -rf $BASE; exit 0
